@@ -721,7 +721,11 @@ class Writer(object):
         return self.eol.join(lines) + self.eol
 
     def document(self, grids, final_newline=True):
-        txt = self.eol.join(self.grid(g) for g in grids)
+        parts = [self.grid(g) for g in grids]
+        txt = parts[0] if parts else ''
+        for g in parts[1:]:
+            # grids are separated by one empty line; more empty lines are tolerated by readers
+            txt += self.eol * (1 + self.p.pick(3, 'extra-blank-lines-between-grids') // 2) + g
         if not final_newline and txt.endswith(self.eol):
             txt = txt[:-len(self.eol)]
         return txt
